@@ -131,7 +131,7 @@ def setitem(ctx, struct, key, newdims, match, appended=()):
     consistent = bool(consistent)
     if not consistent:
         if any(d not in st['labels'] for d in newdims):
-            ctx.region('C13.rejected-assignment-leaves-axes', True)
+            pass
         ok = ctx.AND(pre_ok, r == ('exc', 'ValueError'), inv(ctx, ds), state_eq(ctx, ds, st))
         return ctx.done(ok, [r[1] if r[0] != 'ok' else 'accepted', ctx.observe(ds)])
     if r[0] != 'ok':
@@ -232,7 +232,6 @@ def rename_clash(ctx, struct, how):
     else:
         f = lambda: setattr(ds, 'dims', tuple(d1 for _ in ds.dims))
     r = ctx.call(f)
-    ctx.region('C13.rename-to-existing-dimension', True)
     ok = ctx.AND(r[0] != 'ok', inv(ctx, ds), state_eq(ctx, ds, st))
     return ctx.done(ok, [r[1] if r[0] != 'ok' else 'accepted', ctx.observe(ds)])
 
